@@ -241,12 +241,14 @@ def balanced(src, start):
 
 
 def extract_body(src, fn, sig_rx):
-    ms = list(re.finditer(sig_rx + r"\s*\{", src))
+    # constructors: an initialiser list `: data(EXPR)` is the statement `data = EXPR;` in front of the body
+    ms = list(re.finditer(sig_rx + r"\s*(?::\s*data\s*\(((?:[^()]|\([^()]*\))*)\)\s*)?\{", src))
     if len(ms) != 1:
         raise Untranslatable(f"{fn}: {len(ms)} definitions found, expected exactly one")
     m = ms[0]
     end = balanced(src, m.end() - 1)
-    return src[m.end():end - 1], m.groups()
+    init = m.groups()[-1]
+    return (f"data = {init};" if init else "") + src[m.end():end - 1], m.groups()[:-1]
 
 
 CAST_TYPES = {"char*": "cptr", "constchar*": "cptr", "byte*": "byteptr", "Data*": "dptr", "usize": "nat", "constbyte*": "byteptr"}
@@ -1144,6 +1146,8 @@ BODY_FUNCS = [
     ("dtor", r"~\s*String\s*\(\s*\)", [], "void", "~String()"),
     ("detach", r"void\s+detach\s*\(\s*usize\s+(\w+)\s*,\s*usize\s+(\w+)\s*\)", ["nat", "nat"], "void", "detach(usize, usize)"),
     ("ctorCopy", r"(?<![~\w])String\s*\(\s*" + P_STR + r"\s*\)", ["obj"], "ctor", "String(const String&)"),
+    ("ctorEmpty", r"(?<![~\w:])String\s*\(\s*\)", [], "ctor", "String()"),
+    ("ctorPtr", r"(?<![~\w])String\s*\(\s*const\s+char\s*\*\s*(\w+)\s*,\s*usize\s+(\w+)\s*\)", ["cptr", "nat"], "ctor", "String(const char*, usize)"),
     ("ctorCap", r"explicit\s+String\s*\(\s*usize\s+(\w+)\s*\)", ["nat"], "ctor", "explicit String(usize)"),
     ("assign", r"String\s*&\s*operator\s*=\s*\(\s*" + P_STR + r"\s*\)", ["obj"], "self", "operator=(const String&)"),
     ("cviewConst", r"operator\s+const\s+char\s*\*\s*\(\s*\)\s*const", [], "cstr", "operator const char*() const"),
